@@ -83,7 +83,7 @@ def check(run):
         raise vlib.InfraError("driver recorded %d traces for %d behaviours" % (len(per), len(behs)))
     for i, b in enumerate(behs):
         run.note_case("reapers:" + json.dumps(b["steps"], sort_keys=True), bool(per[i]["deletes"]))
-    run.validate("Reapers_Trace", "Reapers_Trace.cfg", files, par=4 if run.tier == "quick" else 8)
+    run.validate("Reapers_Trace", "Reapers_Trace.cfg", files, par=8)
     drift, examples = rc.model_drift(behs, per)
     run.extra_cov["model_vs_code_per_reconcile"] = drift
     bad = {k: v for k, v in drift.items() if not k.endswith((":agree", ":agree-delete"))}
